@@ -1989,9 +1989,9 @@ base64_encode(const char *s, size_t len)
 
 	/* Convert each group of 3 bytes into 4 characters. */
 	while (len >= 3) {
-		v = (((int)s[0] << 16) & 0xff0000)
-		    | (((int)s[1] << 8) & 0xff00)
-		    | (((int)s[2]) & 0x00ff);
+		v = (((int)(unsigned char)s[0] << 16) & 0xff0000)
+		    | (((int)(unsigned char)s[1] << 8) & 0xff00)
+		    | (((int)(unsigned char)s[2]) & 0x00ff);
 		s += 3;
 		len -= 3;
 		*d++ = digits[(v >> 18) & 0x3f];
@@ -2003,13 +2003,13 @@ base64_encode(const char *s, size_t len)
 	switch (len) {
 	case 0: break;
 	case 1:
-		v = (((int)s[0] << 16) & 0xff0000);
+		v = (((int)(unsigned char)s[0] << 16) & 0xff0000);
 		*d++ = digits[(v >> 18) & 0x3f];
 		*d++ = digits[(v >> 12) & 0x3f];
 		break;
 	case 2:
-		v = (((int)s[0] << 16) & 0xff0000)
-		    | (((int)s[1] << 8) & 0xff00);
+		v = (((int)(unsigned char)s[0] << 16) & 0xff0000)
+		    | (((int)(unsigned char)s[1] << 8) & 0xff00);
 		*d++ = digits[(v >> 18) & 0x3f];
 		*d++ = digits[(v >> 12) & 0x3f];
 		*d++ = digits[(v >> 6) & 0x3f];
